@@ -1,6 +1,6 @@
 """Shared machinery of the checks: table regeneration, Lean build + audit, model/implementation
 correspondence over the line protocol, known findings, evidence and replay files."""
-import os, sys, re, json, time, subprocess, random, hashlib, shutil
+import traceback, os, sys, re, json, time, subprocess, random, hashlib, shutil
 
 VERIF = os.path.dirname(os.path.dirname(os.path.abspath(__file__)))
 LEAN = os.path.join(VERIF, 'lean')
@@ -21,6 +21,30 @@ class Failure:
         self.key = key or what    # matched against known_findings.json
     def to_json(self):
         return {'what': self.what, 'data': self.data, 'key': self.key}
+
+def guarded(what_fn, data_fn):
+    """decorator for the per-item property checks of the failing-input searches: an exception that escapes the check (the implementation
+    raising on a valid input in a place the check did not anticipate) is a failing input for that item, not a crash of the search.
+    `what_fn(**args)` / `data_fn(**args)` build the description and the replay payload from the check's own arguments."""
+    import inspect, functools
+    def deco(fn):
+        sig = inspect.signature(fn)
+        @functools.wraps(fn)
+        def wrapped(*a, **k):
+            try:
+                return fn(*a, **k)
+            except Exception as e:  # noqa
+                b = sig.bind(*a, **k); b.apply_defaults()
+                args = dict(b.arguments)
+                fails = args.get('fails')
+                if fails is None:
+                    raise
+                tb = traceback.extract_tb(e.__traceback__)
+                where = next((f'{os.path.basename(fr.filename)}:{fr.lineno} in {fr.name}' for fr in reversed(tb) if os.sep + 'a5' + os.sep in fr.filename), '')
+                fails.append(Failure(f'{what_fn(**args)}: {type(e).__name__}: {str(e)[:160]}' + (f' (raised at {where})' if where else ''), data_fn(**args)))
+                return 0
+        return wrapped
+    return deco
 
 def sh(cmd, cwd=None, timeout=None, env=None):
     e = dict(os.environ)
